@@ -10,6 +10,8 @@
 //   trunc <nonce12> <msg> <pw> <len>         Encrypt, keep the first <len> bytes, Decrypt
 //   ext <nonce12> <msg> <pw> <extra>         Encrypt, append <extra>, Decrypt
 //   wrongpw <nonce12> <msg> <pw> <pw2>       Encrypt with pw, Decrypt with pw2
+//   again <nonce12> <msg> <pw> <pw1>         Encrypt with pw, then Decrypt the SAME in-memory
+//                                            ciphertext buffer twice: first with pw1, then with pw
 //   key <ed|sr|secp> <nonce12> <keybytes> <pw>     NewPrivateKey(keybytes), EncryptPrivateKey,
 //                                                  DecryptPrivateKey with the scheme's type
 //   keydec <ed|sr|secp> <nonce12> <raw> <pw>       Encrypt(raw) then DecryptPrivateKey
@@ -25,6 +27,7 @@
 // observables:
 //   enc, flip, trunc, ext, wrongpw, keydec, mut -> <ciphertext> <res>
 //   dec                                    -> <res>
+//   again                                  -> <ciphertext> <res of first> <res of second> <1 if the buffer is unchanged else 0>
 //   key                                    -> <encoded private key> <ciphertext> <res>
 //   file, filemut                          -> <encoded private key> <ciphertext in the file> <res>
 //   <res> = ok:<hex of plaintext> | ok:<type byte 01 ed/02 sr/03 secp><Encode() of the decoded key>
@@ -362,6 +365,11 @@ func c37Gen(r *vu.RNG, n int, emit func(string)) {
 				pw2 = c37NearMiss(r, pw)
 			}
 			emit(fmt.Sprintf("wrongpw %s %s %s %s", h(nonce), h(msg), h(pw), h(pw2)))
+			// and: a second attempt on the same in-memory ciphertext, after a wrong or a right one
+			if r.Chance(1, 2) {
+				pw2 = pw
+			}
+			emit(fmt.Sprintf("again %s %s %s %s", h(nonce), h(msg), h(pw), h(pw2)))
 		case 15, 16, 17:
 			s := c37Schemes[r.Intn(3)]
 			emit(fmt.Sprintf("key %s %s %s %s", s, h(nonce), h(c37KeyBytes(r, s)), h(pw)))
@@ -445,6 +453,20 @@ func c37Run(in string) string {
 	switch f[0] {
 	case "dec":
 		return c37Dec(u(f[1]), u(f[2]))
+	case "again":
+		nonce, msg, pw, pw1 := u(f[1]), u(f[2]), u(f[3]), u(f[4])
+		ct, err := c37Encrypt(msg, pw, nonce)
+		if err != nil {
+			return "err:encrypt"
+		}
+		buf := append([]byte{}, ct...)
+		r1 := c37Res(func() ([]byte, error) { return Decrypt(buf, pw1) })
+		r2 := c37Res(func() ([]byte, error) { return Decrypt(buf, pw) })
+		same := "0"
+		if bytes.Equal(buf, ct) {
+			same = "1"
+		}
+		return vu.Hex(ct) + " " + r1 + " " + r2 + " " + same
 	case "enc", "flip", "trunc", "ext", "wrongpw", "mut":
 		nonce, msg, pw := u(f[1]), u(f[2]), u(f[3])
 		ct, err := c37Encrypt(msg, pw, nonce)
